@@ -1,7 +1,7 @@
 """Sidecar contracts for the functions of /repo (one module per group).  Each module defines register(reg)."""
 import importlib
 
-MODULES = ["common", "hdrs", "c03", "c02", "c05", "c09", "c08", "c13", "c17", "c14", "c10", "c20", "c16", "c19", "c18", "c07", "c12", "c01", "c11"]
+MODULES = ["common", "hdrs", "c03", "c02", "c05", "c09", "c08", "c13", "c17", "c14", "c10", "c20", "c16", "c19", "c18", "c07", "c12", "c01", "c11", "c04"]
 
 
 def load(reg, modules=None):
